@@ -9,6 +9,9 @@ args = [a for a in args if a != "--all-props"]
 mdir = "/verif/mutants"
 if "--dir" in args:
     i = args.index("--dir"); mdir = args[i+1]; del args[i:i+2]
+st = subprocess.run(["git","-C",REPO,"status","--porcelain","--untracked-files=no"],capture_output=True,text=True).stdout.strip()
+if st:
+    print("refusing to run: /repo has uncommitted changes (they would be wiped):\n" + st); sys.exit(1)
 expect = json.load(open(os.path.join(mdir, "expect.json")))
 names = args or sorted(expect)
 sys.path.insert(0, "/verif/tools")
